@@ -40,5 +40,28 @@ THEOREM SliceThenWindow ==
            IN /\ ValidSlice(a, b)
               /\ hi2 - lo2 = Hi(a, b, n) - Lo(a, n)           \* same number of rows
               /\ (hi2 > lo2 => lo2 = Lo(a, n) /\ hi2 = Hi(a, b, n))   \* and, when non-empty, the same window
-BY DEF Lo, Hi, ThenA, ThenB, ValidSlice, Min2, Max2
+BY SMTT(120) DEF Lo, Hi, ThenA, ThenB, ValidSlice, Min2, Max2
+
+(***************************************************************************)
+(* Unbounded arithmetic core of property C06 for slices: the row bounds a   *)
+(* Slice declares (Slice.applied_min_rows / applied_max_rows) are truthful  *)
+(* for EVERY actual row count n of the target that lies within the target's *)
+(* own declared bounds [tmin, tmax] (tmax = -1: unbounded).                 *)
+(***************************************************************************)
+SliceMin(a, b, tmin) ==
+    LET stop == IF b # -1 THEN Min2(b, tmin) ELSE tmin IN Max2(stop - a, 0)
+SliceMax(a, b, tmax) ==
+    IF b # -1
+    THEN LET stop == IF tmax # -1 THEN Min2(b, tmax) ELSE b IN Max2(stop - a, 0)
+    ELSE IF tmax # -1 THEN Max2(tmax - a, 0) ELSE -1
+
+THEOREM SliceBoundsTruthful ==
+    ASSUME NEW n \in Nat, NEW a \in Nat, NEW b \in Int, NEW tmin \in Nat, NEW tmax \in Int,
+           ValidSlice(a, b), tmin <= n, tmax = -1 \/ (tmax \in Nat /\ n <= tmax)
+    PROVE  LET len == Hi(a, b, n) - Lo(a, n) IN
+           /\ SliceMin(a, b, tmin) <= len
+           /\ SliceMax(a, b, tmax) = -1 \/ len <= SliceMax(a, b, tmax)
+           /\ SliceMin(a, b, tmin) \in Nat
+           /\ (SliceMax(a, b, tmax) # -1 => SliceMax(a, b, tmax) \in Nat /\ SliceMin(a, b, tmin) <= SliceMax(a, b, tmax))
+BY SMTT(120) DEF Lo, Hi, SliceMin, SliceMax, ValidSlice, Min2, Max2
 =============================================================================
